@@ -198,8 +198,10 @@ class C16Objects:
         master = rbip32.RefHDNode.from_seed(rhashes.sha256(b'c16 wallet %d ' % i + tag))
         wt = ch.pick('wt', ['segwit', 'p2sh-segwit', 'legacy'])
         purpose = {'legacy': 44, 'p2sh-segwit': 49, 'segwit': 84}[wt]
-        from_what = ch.weighted('wallet_from', [('master', 5), ('account_private', 3)])
+        from_what = ch.weighted('wallet_from', [('master', 5), ('account_private', 3), ('multisig', 3)])
         self.reg.add_node(master, 'w.m')
+        if from_what == 'multisig':
+            return self.make_multisig_wallet(master, wt)
         acc = 'm'
         for part in ("%d'" % purpose, "%d'" % self.coin, "0'"):
             acc += '/' + part
@@ -219,6 +221,36 @@ class C16Objects:
                              db_cache_uri=os.path.join(self.w.scratch, 'cache.sqlite'))
         self.wallet = {'w': w, 'wt': wt, 'db': db, 'master': master, 'acc': acc}
         self.subjects.append({'kind': 'Wallet', 'obj': w, 'label': 'wallet', 'wt': wt})
+
+    def make_multisig_wallet(self, master, wt):
+        """2-of-3 cosigner wallet that holds one private cosigner key (the other two are public account keys)."""
+        from scenarios.wallet_world import MS_ACCOUNT_PATH, MS_FAMILY
+        BW = self.BW
+        acc_path = MS_ACCOUNT_PATH[wt]
+        if '%d' in acc_path:
+            acc_path = acc_path % self.coin
+        acc = 'm'
+        for part in acc_path.split('/')[1:]:
+            acc += '/' + part
+            self.reg.add_node(master.derive(acc), 'w.' + acc)
+        accn = master.derive(acc_path)
+        rels = ['%d' % c for c in (0, 1, 2)]
+        for a in (0, 1, 2):
+            for b in (0, 1):
+                rels.append('%d/%d' % (a, b))
+                for c in range(4):
+                    rels.append('%d/%d/%d' % (a, b, c))
+        for rel in rels:        # legacy: cosigner/change/index, segwit kinds: change/index
+            self.reg.add_node(accn.derive(rel), 'w.%s/%s' % (acc_path, rel))
+        fam = MS_FAMILY[wt]
+        pubv = rcodec.NETWORKS[self.network]['xkeys'][fam][0]
+        others = [rbip32.RefHDNode.from_seed(rhashes.sha256(b'c16 cosigner %d' % j)) for j in (1, 2)]
+        keys = [self.xprv(master)] + [o.derive(acc_path).neuter().ser_public(pubv) for o in others]
+        db = os.path.join(self.w.scratch, 'w.sqlite')
+        w = BW.Wallet.create('c16w', keys=keys, sigs_required=2, network=self.network, witness_type=wt, db_uri=db,
+                             db_cache_uri=os.path.join(self.w.scratch, 'cache.sqlite'))
+        self.wallet = {'w': w, 'wt': wt, 'db': db, 'master': master, 'acc': acc_path}
+        self.subjects.append({'kind': 'Wallet', 'obj': w, 'label': 'wallet', 'wt': wt, 'multisig': True})
 
     # -- observation ------------------------------------------------------------------------------------------
     def leak_in_object(self, obj, what):
@@ -458,8 +490,9 @@ class C16Objects:
         wl = s['obj']
         BW = self.BW
         pm = wl.public_master()
-        self.check_public_object(pm, 'Wallet.public_master()', primed)
-        self.check_text(pm.wif, 'Wallet.public_master().wif', primed)
+        for pm_ in (pm if isinstance(pm, list) else [pm]):      # (one per cosigner for multisig wallets)
+            self.check_public_object(pm_, 'Wallet.public_master()', primed)
+            self.check_text(pm_.wif, 'Wallet.public_master().wif', primed)
         self.check_text(wl.wif(is_private=False), 'Wallet.wif(is_private=False)', primed)
         for name, fn in [('as_dict()', lambda: wl.as_dict()), ('as_json()', lambda: wl.as_json()),
                          ('repr', lambda: repr(wl)), ('str', lambda: str(wl)),
@@ -479,14 +512,21 @@ class C16Objects:
                 raise
             except Exception as e:
                 w.probe('view_raised:%s' % type(e).__name__)
-        kp = wl.key(k.key_id).public()
-        self.check_public_object(kp, 'WalletKey.public()', primed)
+        try:
+            kp = wl.key(k.key_id).public()
+        except StopRun:
+            raise
+        except Exception as e:
+            kp = None
+            w.probe('view_raised:WalletKey.public():%s' % type(e).__name__)
+        if kp is not None:
+            self.check_public_object(kp, 'WalletKey.public()', primed)
         # the wallet's listings
         self.text_views('Wallet', [('utxos()', wl.utxos), ('transactions(as_dict=True)',
                                                           lambda: wl.transactions(as_dict=True, include_new=True)),
                                    ('addresslist()', wl.addresslist), ('accounts()', wl.accounts)], primed)
         # watch-only wallet created from the export
-        if self.ch.coin('watch', 0.4) and not getattr(self, 'watch_done', False):
+        if not s.get('multisig') and self.ch.coin('watch', 0.4) and not getattr(self, 'watch_done', False):
             self.watch_done = True
             wo = BW.Wallet.create('c16watch', keys=pm.wif, network=self.network, witness_type=s['wt'],
                                   db_uri=os.path.join(self.w.scratch, 'watch.sqlite'),
